@@ -113,6 +113,14 @@ func (d *deepView) strLang(v ssa.Value, fr *frame, depth int) []seg {
 						switch {
 						case s.kind == "var" && (s.note == "%s" || s.note == "%v") && s.val != nil && types.Identical(ir.StripIface(s.val).Type().Underlying(), types.Typ[types.String]):
 							out = append(out, d.strLang(ir.StripIface(s.val), r.fr, depth+1)...)
+						case s.kind == "hex" && s.val != nil && isByteSlice(ir.StripIface(s.val).Type()) && !s.upper && s.plainBytes:
+							// %x of a byte slice: two digits per byte, whatever the bytes were built from
+							if hs, ok := d.hexOfBytes(ir.StripIface(s.val), r.fr); ok {
+								out = append(out, hs...)
+							} else {
+								s.fr = r.fr
+								out = append(out, s)
+							}
 						case s.kind == "hex" && s.val != nil:
 							o := d.originOf(ir.StripIface(s.val), r.fr)
 							s.origin = &o
@@ -168,45 +176,59 @@ func (d *deepView) strLang(v ssa.Value, fr *frame, depth int) []seg {
 			}
 			return in
 		case "encoding/hex.EncodeToString":
-			bs, ok := d.byteSeq(x.Call.Args[0], r.fr, 0)
-			if !ok {
-				// what is printed is not resolved, but it is lower-case hexadecimal
-				s := seg{kind: "hex", upper: false, digits: -1, val: x.Call.Args[0], fr: r.fr}
-				if n, ok := byteLen(x.Call.Args[0]); ok {
-					s.digits = int(2 * n)
-				} else if mk := makeLenOf(d.resolve(x.Call.Args[0], r.fr).v); mk >= 0 {
-					s.digits = int(2 * mk)
-				}
-				return []seg{s}
+			if out, ok := d.hexOfBytes(x.Call.Args[0], r.fr); ok {
+				return out
 			}
-			var out []seg
-			for _, b := range bs {
-				if !b.width.isConst() || b.cond {
-					return opaque()
-				}
-				w := b.width.K
-				switch {
-				case b.kind == "enc" && (b.order == "BE" || b.order == "-"):
-					o := d.originOf(b.v.v, b.v.fr)
-					if arr, isArr := b.v.v.Type().Underlying().(*types.Array); isArr && binarySize(arr.Elem()) == 1 && o.blo < 0 {
-						o.blo, o.bhi = 0, arr.Len()
-					}
-					out = append(out, seg{kind: "hex", digits: int(2 * w), val: b.v.v, fr: b.v.fr, origin: &o})
-				case b.kind == "bytes":
-					o := d.originOf(b.v.v, b.v.fr)
-					if o.blo < 0 {
-						o.blo, o.bhi = 0, w
-					}
-					out = append(out, seg{kind: "hex", digits: int(2 * w), val: b.v.v, fr: b.v.fr, origin: &o})
-				default:
-					// little-endian encodings print byte-swapped: not a hex group of the value
-					out = append(out, seg{kind: "var", note: "hex of " + b.String()})
-				}
-			}
-			return out
+			return opaque()
 		}
 	}
 	return opaque()
+}
+
+// hexOfBytes: the lower-case hexadecimal rendering of a byte sequence, as hex
+// groups over the values the bytes encode (big-endian encodings print the digits
+// of the value; raw byte runs print their bytes).
+func (d *deepView) hexOfBytes(arg ssa.Value, fr *frame) ([]seg, bool) {
+	bs, ok := d.byteSeq(arg, fr, 0)
+	if !ok {
+		// what is printed is not resolved, but it is lower-case hexadecimal
+		s := seg{kind: "hex", upper: false, digits: -1, val: arg, fr: fr}
+		if n, ok := byteLen(arg); ok {
+			s.digits = int(2 * n)
+		} else if mk := makeLenOf(d.resolve(arg, fr).v); mk >= 0 {
+			s.digits = int(2 * mk)
+		}
+		return []seg{s}, true
+	}
+	var out []seg
+	for _, b := range bs {
+		if !b.width.isConst() || b.cond {
+			return nil, false
+		}
+		w := b.width.K
+		switch {
+		case b.kind == "enc" && (b.order == "BE" || b.order == "-"):
+			o := d.originOf(b.v.v, b.v.fr)
+			if arr, isArr := b.v.v.Type().Underlying().(*types.Array); isArr && binarySize(arr.Elem()) == 1 && o.blo < 0 {
+				o.blo, o.bhi = 0, arr.Len()
+			}
+			out = append(out, seg{kind: "hex", digits: int(2 * w), val: b.v.v, fr: b.v.fr, origin: &o})
+		case b.kind == "bytes":
+			o := d.originOf(b.v.v, b.v.fr)
+			if o.blo < 0 {
+				o.blo, o.bhi = 0, w
+			}
+			if b.boff != 0 || o.bhi-o.blo != w {
+				o.blo += b.boff
+				o.bhi = o.blo + w
+			}
+			out = append(out, seg{kind: "hex", digits: int(2 * w), val: b.v.v, fr: b.v.fr, origin: &o})
+		default:
+			// little-endian encodings print byte-swapped: not a hex group of the value
+			out = append(out, seg{kind: "var", note: "hex of " + b.String()})
+		}
+	}
+	return out, true
 }
 
 // cutLang cuts a language at character positions [lo, hi) (hi < 0: to the end);
